@@ -186,6 +186,23 @@ for (sym, iso), rows in _nt.ENERGY_DEPENDENT_TABLES.items():
                  "%s.neutron at that energy serves b_c = %r" % (who, e, re_, im_, mod, math.hypot(re_, im_), who, served),
                  atom=who, energy_eV=e, row=[e, re_, im_, mod])
 
+# ---------------------------------------------------------------- A3. the package-level entry points
+# periodictable.neutron_sld / neutron_scattering are the documented front doors: same arguments, same results as nsf.*
+import periodictable as _pt
+stats["package_level"] = 0
+for _ in range(12 if not thorough else 120):
+    seq_ = pool.nested(rng.randint(0, 2), must=[rng.choice(pool.tab)] if rng.random() < 0.5 else [])
+    rho_ = pool.density()
+    w_ = pool.wavelength(flat_atoms(seq_))
+    for kw_ in (dict(wavelength=w_), dict(energy=EF_DOC / w_ ** 2), dict()):
+        for name_ in ("neutron_scattering", "neutron_sld"):
+            stats["package_level"] += 1
+            a_ = attempt(getattr(_pt, name_), seq_, density=rho_, **kw_)
+            b_ = attempt(getattr(nsf, name_), seq_, density=rho_, **kw_)
+            t_ = "periodictable.%s(%r, density=%r%s)" % (name_, seq_, rho_, "".join(", %s=%r" % kv for kv in kw_.items()))
+            if isinstance(a_, BaseException) or isinstance(b_, BaseException) or repr(a_) != repr(b_):
+                fail("C03:package-level-call", "%s = %r, periodictable.nsf.%s with the same arguments gives %r" % (t_, a_, name_, b_), call=t_)
+
 # ---------------------------------------------------------------- B. random compounds
 for i in range(nrandom):
     must = []
